@@ -762,6 +762,50 @@ def _closures_first(bodies):
     return sorted(bodies, key=lambda b: -(b.get('path') or '').count('{closure'))
 
 
+# adaptor -> (enum of the receiver, {variant: action})
+#   action: ('f', wrap)   call f(payload), result wrapped in `wrap` (None: result as it is)
+#           ('f0', wrap)  call f() (no argument), result wrapped / as it is
+#           ('pass', wrap) payload re-wrapped in `wrap` (None: the payload itself)
+#           ('arg', wrap) the plain value argument, wrapped / as it is
+#           ('unit', wrap) a payload-less variant of the result enum
+#           ('default', None) Default::default()
+# wrap = (enum, variant, index)
+_R, _O = 'std::result::Result', 'std::option::Option'
+_OK, _ERR, _SOME, _NONE = (_R, 'Ok', 0), (_R, 'Err', 1), (_O, 'Some', 1), (_O, 'None', 0)
+ADAPTORS = {
+    (_R, 'map'): {'Ok': ('f', _OK), 'Err': ('pass', _ERR)},
+    (_R, 'map_err'): {'Ok': ('pass', _OK), 'Err': ('f', _ERR)},
+    (_R, 'and_then'): {'Ok': ('f', None), 'Err': ('pass', _ERR)},
+    (_R, 'or_else'): {'Ok': ('pass', _OK), 'Err': ('f', None)},
+    (_R, 'ok'): {'Ok': ('pass', _SOME), 'Err': ('unit', _NONE)},
+    (_R, 'err'): {'Ok': ('unit', _NONE), 'Err': ('pass', _SOME)},
+    (_R, 'unwrap_or'): {'Ok': ('pass', None), 'Err': ('arg', None)},
+    (_R, 'unwrap_or_else'): {'Ok': ('pass', None), 'Err': ('f', None)},
+    (_R, 'unwrap_or_default'): {'Ok': ('pass', None), 'Err': ('default', None)},
+    (_R, 'map_or'): {'Ok': ('f', None), 'Err': ('arg', None)},
+    (_O, 'map'): {'Some': ('f', _SOME), 'None': ('unit', _NONE)},
+    (_O, 'and_then'): {'Some': ('f', None), 'None': ('unit', _NONE)},
+    (_O, 'ok_or'): {'Some': ('pass', _OK), 'None': ('arg', _ERR)},
+    (_O, 'ok_or_else'): {'Some': ('pass', _OK), 'None': ('f0', _ERR)},
+    (_O, 'unwrap_or'): {'Some': ('pass', None), 'None': ('arg', None)},
+    (_O, 'unwrap_or_else'): {'Some': ('pass', None), 'None': ('f0', None)},
+    (_O, 'unwrap_or_default'): {'Some': ('pass', None), 'None': ('default', None)},
+    (_O, 'map_or'): {'Some': ('f', None), 'None': ('arg', None)},
+    (_O, 'or_else'): {'Some': ('pass', _SOME), 'None': ('f0', None)},
+}
+_VIDX = {(_R, 'Ok'): 0, (_R, 'Err'): 1, (_O, 'None'): 0, (_O, 'Some'): 1}
+
+
+def _enum_args(ty):
+    ty = ty.strip()
+    for (pre, n) in (('std::result::Result<', 2), ('std::option::Option<', 1)):
+        if ty.startswith(pre) and ty.endswith('>'):
+            parts = _split_top(ty[len(pre):-1])
+            if len(parts) == n:
+                return parts
+    return None
+
+
 def desugar_adaptors(j):
     import re as _re
     if j.get('crate') != 'mrecordlog':
@@ -776,106 +820,138 @@ def desugar_adaptors(j):
             t = blk['term']
             if blk.get('cleanup') or t['k'] != 'call' or t.get('target') is None or t.get('dest') is None:
                 continue
-            m = _re.match(r'^std::result::Result::<.*>::(map|map_err|and_then)::<', t['callee'].get('name', ''))
-            if not m or len(t['args']) != 2:
+            m = _re.match(r'^std::(result::Result|option::Option)::<.*?>::(\w+)(::<.*)?$', t['callee'].get('name', ''))
+            if not m:
                 continue
-            kind = m.group(1)
-            r_op, f_op = t['args']
+            enum = 'std::' + m.group(1)
+            kind = m.group(2)
+            table = ADAPTORS.get((enum, kind))
+            if table is None:
+                continue
+            args = t['args']
+            uses_f = any(a[0] in ('f', 'f0') for a in table.values())
+            uses_arg = any(a[0] == 'arg' for a in table.values())
+            want = 1 + (1 if uses_f else 0) + (1 if uses_arg else 0)
+            if len(args) != want:
+                continue
+            r_op = args[0]
             if r_op.get('k') not in ('move', 'copy') or r_op['place']['p']:
                 continue
             r = r_op['place']['l']
-            ra = _result_args(strip_crate(b['locals'][r]['ty']))
+            ra = _enum_args(strip_crate(b['locals'][r]['ty']))
             if ra is None:
                 continue
-            T, E = ra
-            # the function value
+            # argument order: (self, default?, f?) for map_or; (self, f) ; (self, default)
+            f_op = args[-1] if uses_f else None
+            v_op = args[1] if uses_arg else None
             fnj = None
             env = None
-            if f_op.get('k') == 'const' and isinstance(f_op.get('fn'), dict):
-                fnj = f_op['fn']
-            elif f_op.get('k') in ('move', 'copy') and not f_op['place']['p']:
-                cl = f_op['place']['l']
-                for s_ in blk['stmts']:
-                    if s_.get('k') == 'assign' and s_['place']['l'] == cl and not s_['place']['p'] and s_['rv'].get('k') == 'agg' and s_['rv'].get('agg') == 'closure':
-                        fnj = s_['rv']['fn']
-                        env = cl
-            if fnj is None:
-                continue
+            if uses_f:
+                if f_op.get('k') == 'const' and isinstance(f_op.get('fn'), dict):
+                    fnj = f_op['fn']
+                elif f_op.get('k') in ('move', 'copy') and not f_op['place']['p']:
+                    cl = f_op['place']['l']
+                    for s_ in blk['stmts']:
+                        if s_.get('k') == 'assign' and s_['place']['l'] == cl and not s_['place']['p'] and s_['rv'].get('k') == 'agg' and s_['rv'].get('agg') == 'closure':
+                            fnj = s_['rv']['fn']
+                            env = cl
+                if fnj is None:
+                    continue
             span, exp = t['span'], t.get('exp')
             dest, target = t['dest'], t['target']
             locs = b['locals']
+
             def new_local(ty, adt=None):
                 locs.append({'ty': ty, 'adt': adt})
                 return len(locs) - 1
-            d = new_local('isize')
-            v = new_local(T)
-            e = new_local(E)
-            callee = dict(fnj)
-            callee['as_value'] = False
-            # result type of f
-            dty = strip_crate(locs[dest['l']]['ty']) if not dest['p'] else None
-            da = _result_args(dty) if dty else None
-            if kind == 'map':
-                fres_ty = da[0] if da else '_'
-            elif kind == 'map_err':
-                fres_ty = da[1] if da else '_'
-            else:
-                fres_ty = dty or '_'
-            # argument list of the call to f: closures take their environment first
-            def call_args(x):
-                if env is None:
-                    return [{'k': 'move', 'place': {'l': x, 'p': []}}], []
-                pre = []
-                cb = by_id.get(fnj.get('node'))
-                if cb is not None and cb['arg_count'] >= 1 and strip_crate(cb['locals'][1]['ty']).startswith('&'):
-                    rf = new_local('&' + strip_crate(locs[env]['ty']))
-                    pre.append({'k': 'assign', 'place': {'l': rf, 'p': []}, 'rv': {'k': 'ref', 'mut': 'mut' if strip_crate(cb['locals'][1]['ty']).startswith('&mut') else 'shared', 'place': {'l': env, 'p': []}}, 'span': span, 'exp': exp, 'dsg': True})
-                    return [{'k': 'move', 'place': {'l': rf, 'p': []}}, {'k': 'move', 'place': {'l': x, 'p': []}}], pre
-                return [{'k': 'move', 'place': {'l': env, 'p': []}}, {'k': 'move', 'place': {'l': x, 'p': []}}], pre
-            nb = len(b['blocks'])
-            B_ok, B_err = nb, nb + 1
-            def proj(var, idx):
-                return {'l': r, 'p': [{'k': 'downcast', 'variant': var, 'idx': idx, 'adt': 'std::result::Result'}, {'k': 'field', 'i': 0, 'name': '0', 'adt': 'std::result::Result', 'variant': var}]}
-            def agg(var, idx, x):
-                return {'k': 'agg', 'agg': 'adt', 'adt': 'std::result::Result', 'variant': var, 'variant_idx': idx, 'is_enum': True, 'fields': ['0'], 'ops': [{'k': 'move', 'place': {'l': x, 'p': []}}]}
+
             def asg(pl, rv):
                 return {'k': 'assign', 'place': pl, 'rv': rv, 'span': span, 'exp': exp, 'dsg': True}
+
             def goto(tb):
                 return {'k': 'goto', 'target': tb, 'span': span, 'exp': exp}
-            ok_stmts = [asg({'l': v, 'p': []}, {'k': 'use', 'op': {'k': 'move', 'place': proj('Ok', 0)}})]
-            err_stmts = [asg({'l': e, 'p': []}, {'k': 'use', 'op': {'k': 'move', 'place': proj('Err', 1)}})]
+
+            def mv(l):
+                return {'k': 'move', 'place': {'l': l, 'p': []}}
+
+            def proj(var):
+                return {'l': r, 'p': [{'k': 'downcast', 'variant': var, 'idx': _VIDX[(enum, var)], 'adt': enum}, {'k': 'field', 'i': 0, 'name': '0', 'adt': enum, 'variant': var}]}
+
+            def agg(w, ops):
+                return {'k': 'agg', 'agg': 'adt', 'adt': w[0], 'variant': w[1], 'variant_idx': w[2], 'is_enum': True, 'fields': (['0'] if ops else []), 'ops': ops}
+
+            callee = None
+            if fnj is not None:
+                callee = dict(fnj)
+                callee['as_value'] = False
+            cb = by_id.get(fnj.get('node')) if (fnj and env is not None) else None
+
+            def call_args(x):
+                pre = []
+                if env is None:
+                    return ([mv(x)] if x is not None else []), pre
+                first = mv(env)
+                if cb is not None and cb['arg_count'] >= 1 and strip_crate(cb['locals'][1]['ty']).startswith('&'):
+                    rf = new_local('&' + strip_crate(locs[env]['ty']))
+                    pre.append(asg({'l': rf, 'p': []}, {'k': 'ref', 'mut': 'mut' if strip_crate(cb['locals'][1]['ty']).startswith('&mut') else 'shared', 'place': {'l': env, 'p': []}}))
+                    first = mv(rf)
+                return [first] + ([mv(x)] if x is not None else []), pre
+
+            d = new_local('isize')
+            nb0 = len(b['blocks'])
             new_blocks = []
-            if kind == 'map':
-                fr = new_local(fres_ty)
-                args, pre = call_args(v)
-                new_blocks.append({'cleanup': False, 'stmts': ok_stmts + pre, 'term': {'k': 'call', 'callee': callee, 'args': args, 'dest': {'l': fr, 'p': []}, 'target': nb + 2, 'unwind': None, 'span': span, 'exp': exp, 'fn_span': span, 'fn_exp': exp}})
-                new_blocks.append({'cleanup': False, 'stmts': err_stmts + [asg(copy.deepcopy(dest), agg('Err', 1, e))], 'term': goto(target)})
-                new_blocks.append({'cleanup': False, 'stmts': [asg(copy.deepcopy(dest), agg('Ok', 0, fr))], 'term': goto(target)})
-            elif kind == 'map_err':
-                fr = new_local(fres_ty)
-                args, pre = call_args(e)
-                new_blocks.append({'cleanup': False, 'stmts': ok_stmts + [asg(copy.deepcopy(dest), agg('Ok', 0, v))], 'term': goto(target)})
-                new_blocks.append({'cleanup': False, 'stmts': err_stmts + pre, 'term': {'k': 'call', 'callee': callee, 'args': args, 'dest': {'l': fr, 'p': []}, 'target': nb + 2, 'unwind': None, 'span': span, 'exp': exp, 'fn_span': span, 'fn_exp': exp}})
-                new_blocks.append({'cleanup': False, 'stmts': [asg(copy.deepcopy(dest), agg('Err', 1, fr))], 'term': goto(target)})
-            else:
-                args, pre = call_args(v)
-                new_blocks.append({'cleanup': False, 'stmts': ok_stmts + pre, 'term': {'k': 'call', 'callee': callee, 'args': args, 'dest': copy.deepcopy(dest), 'target': target, 'unwind': None, 'span': span, 'exp': exp, 'fn_span': span, 'fn_exp': exp}})
-                new_blocks.append({'cleanup': False, 'stmts': err_stmts + [asg(copy.deepcopy(dest), agg('Err', 1, e))], 'term': goto(target)})
-            blk['stmts'].append(asg({'l': d, 'p': []}, {'k': 'discr', 'place': {'l': r, 'p': []}, 'adt': 'std::result::Result', 'ty': 'isize'}))
-            blk['term'] = {'k': 'switch', 'discr': {'k': 'move', 'place': {'l': d, 'p': []}}, 'targets': [[0, B_ok], [1, B_err]], 'otherwise': B_err, 'span': span, 'exp': exp, 'dsg': kind}
+            arm_index = {}
+            variants = list(table.keys())
+            payload_ty = {'Ok': ra[0], 'Err': ra[1] if len(ra) > 1 else '_', 'Some': ra[0], 'None': '()'}
+            for var in variants:
+                (act, wrap) = table[var]
+                stmts = []
+                pl = None
+                if var != 'None':
+                    pl = new_local(payload_ty[var])
+                    stmts.append(asg({'l': pl, 'p': []}, {'k': 'use', 'op': {'k': 'move', 'place': proj(var)}}))
+                arm_index[var] = nb0 + len(new_blocks)
+                if act in ('f', 'f0'):
+                    cargs, pre = call_args(pl if act == 'f' else None)
+                    if wrap is None:
+                        new_blocks.append({'cleanup': False, 'stmts': stmts + pre, 'term': {'k': 'call', 'callee': callee, 'args': cargs, 'dest': copy.deepcopy(dest), 'target': target, 'unwind': None, 'span': span, 'exp': exp, 'fn_span': span, 'fn_exp': exp}})
+                    else:
+                        fr = new_local('_')
+                        new_blocks.append({'cleanup': False, 'stmts': stmts + pre, 'term': {'k': 'call', 'callee': callee, 'args': cargs, 'dest': {'l': fr, 'p': []}, 'target': nb0 + len(new_blocks) + 1, 'unwind': None, 'span': span, 'exp': exp, 'fn_span': span, 'fn_exp': exp}})
+                        new_blocks.append({'cleanup': False, 'stmts': [asg(copy.deepcopy(dest), agg(wrap, [mv(fr)]))], 'term': goto(target)})
+                elif act == 'pass':
+                    rv = agg(wrap, [mv(pl)]) if wrap is not None else {'k': 'use', 'op': mv(pl)}
+                    new_blocks.append({'cleanup': False, 'stmts': stmts + [asg(copy.deepcopy(dest), rv)], 'term': goto(target)})
+                elif act == 'arg':
+                    rv = agg(wrap, [copy.deepcopy(v_op)]) if wrap is not None else {'k': 'use', 'op': copy.deepcopy(v_op)}
+                    new_blocks.append({'cleanup': False, 'stmts': stmts + [asg(copy.deepcopy(dest), rv)], 'term': goto(target)})
+                elif act == 'unit':
+                    new_blocks.append({'cleanup': False, 'stmts': stmts + [asg(copy.deepcopy(dest), agg(wrap, []))], 'term': goto(target)})
+                elif act == 'default':
+                    dcal = {'orig': 'std::default::Default::default', 'orig_name': 'Default::default', 'trait_method': True, 'as_value': False, 'kind': 'item', 'path': 'std::default::Default::default',
+                            'name': '<%s as std::default::Default>::default' % payload_ty.get('Ok' if enum == _R else 'Some', '_'), 'local': False, 'unresolved': False}
+                    new_blocks.append({'cleanup': False, 'stmts': stmts, 'term': {'k': 'call', 'callee': dcal, 'args': [], 'dest': copy.deepcopy(dest), 'target': target, 'unwind': None, 'span': span, 'exp': exp, 'fn_span': span, 'fn_exp': exp}})
+            blk['stmts'].append(asg({'l': d, 'p': []}, {'k': 'discr', 'place': {'l': r, 'p': []}, 'adt': enum, 'ty': 'isize'}))
+            tg = [[_VIDX[(enum, var)], arm_index[var]] for var in variants]
+            blk['term'] = {'k': 'switch', 'discr': mv(d), 'targets': sorted(tg), 'otherwise': arm_index[variants[-1]], 'span': span, 'exp': exp, 'dsg': kind}
             first_new = len(b['blocks'])
             b['blocks'].extend(new_blocks)
             count += 1
             # a closure called exactly here is part of this body: put its MIR in place of the call
-            if env is not None:
-                cb = by_id.get(fnj.get('node'))
-                if cb is not None and cb is not b:
-                    for k_, nbk in enumerate(new_blocks):
-                        tt = nbk['term']
-                        if tt['k'] == 'call' and tt['callee'].get('node') == fnj.get('node') and cb['arg_count'] == len(tt['args']):
-                            inline_call(b, first_new + k_, cb)
-                            _forget_closure_value(blk, env)
-                            j.setdefault('_closures_inlined', []).append(cb['id'])
+            if env is not None and cb is not None and cb is not b:
+                caps = None
+                for s_ in blk['stmts']:
+                    if s_.get('k') == 'assign' and s_['place']['l'] == env and not s_['place']['p'] and s_['rv'].get('k') == 'agg' and s_['rv'].get('agg') == 'closure':
+                        caps = [(o['place']['l'] if o.get('k') in ('move', 'copy') and not o['place']['p'] else None) for o in s_['rv'].get('ops', [])]
+                for k_, nbk in enumerate(new_blocks):
+                    tt = nbk['term']
+                    if tt['k'] == 'call' and tt['callee'].get('node') == fnj.get('node') and cb['arg_count'] == len(tt['args']):
+                        off_l = len(b['locals'])
+                        fb = len(b['blocks'])
+                        inline_call(b, first_new + k_, cb)
+                        _subst_captures(b, fb, off_l + 1, caps or [], strip_crate(cb['locals'][1]['ty']).startswith('&'))
+                        _forget_closure_value(blk, env)
+                        j.setdefault('_closures_inlined', []).append(cb['id'])
             # the arms that build a known variant jump straight to the arm the caller's `?` / match selects
             if not dest['p']:
                 cont = _parse_cont(b, target, dest['l'])
@@ -884,8 +960,8 @@ def desugar_adaptors(j):
                         if nbk['term']['k'] != 'goto' or nbk['term']['target'] != target or not nbk['stmts']:
                             continue
                         last = nbk['stmts'][-1]
-                        if last.get('k') == 'assign' and last['place']['l'] == dest['l'] and not last['place']['p'] and last['rv'].get('k') == 'agg' and last['rv'].get('adt') == 'std::result::Result':
-                            _specialise_block(b, nbk, ('adt', 'std::result::Result', last['rv']['variant'], last['rv']['variant_idx']), cont, dest['l'])
+                        if last.get('k') == 'assign' and last['place']['l'] == dest['l'] and not last['place']['p'] and last['rv'].get('k') == 'agg' and last['rv'].get('adt') in (_R, _O) and last['rv'].get('variant'):
+                            _specialise_block(b, nbk, ('adt', last['rv']['adt'], last['rv']['variant'], last['rv']['variant_idx']), cont, dest['l'])
     count += desugar_iter_adaptors(j, by_id)
     if count:
         for b in j.get('instances', []):
